@@ -1,4 +1,5 @@
 import MirVerif.Lemmas.DupRestoreMain
+import MirVerif.Lemmas.DupRestoreWfCheck
 /-!
 # C16 — code generation leaves the MIR program intact and can be repeated
 
@@ -16,6 +17,7 @@ working copy (`Edit.legal`):
 * `restore_identity` duplicate; any legal edits; restore gives back the same instruction list, the
                      same instructions, lrefs, vars and register tables, hence the same print;
 * `restore_wf`       … and the function is again well-formed (a later duplicate is again covered);
+* `wf_of_check`      the executable well-formedness test run on every real function implies `WF`;
 * `gen_idempotent_addr`, `gen_history`  `MIR_gen` on a function whose `machine_code` is set returns
                      `item->addr`, publishes no code and does not touch the function; any history of
                      `MIR_gen` calls returns the same address every time, publishes code once and
@@ -314,6 +316,11 @@ theorem restore_wf (s : State) (es : List Edit) (hwf : WF s)
     rw [hv, hg]
     exact hwf.regsLe r hr d hd
 
+/-- **wf_of_check**: the executable test `wfCheck`, which the driver evaluates on the description of
+every real function taken through the structural tie, implies the hypothesis `WF` of the theorems
+above (so the run measures on which real inputs they apply). -/
+theorem wf_of_check (s : State) (h : wfCheck s = true) : WF s := wfCheck_sound s h
+
 /-! ### `MIR_gen` called repeatedly -/
 
 /-- **gen_idempotent_addr**: when `func->machine_code != NULL`, `MIR_gen` returns `item->addr`,
@@ -476,6 +483,8 @@ example : (genMany item0 [(edits0, 5000), ([], 6000), (edits0, 7000)]).1.machine
     · exact legal0 e he
     · cases he
     · exact legal0 e he)).2.2.1
+
+example : wfCheck s0 = true := by decide
 
 /-- the edits really change the working copy (the example is not trivially the identity) -/
 example : (mutateCopy (duplicate s0) edits0).func.insns = [6, 12, 8, 9, 10, 11] := rfl
